@@ -578,10 +578,10 @@ where
 {
     /// Read-only description of the checkout's stage (verification seam).
     pub(in crate::client) fn verif_stage(&self) -> String {
-        let waiter = match &self.waiter {
-            Waiting::Idle(_) => "idle",
-            Waiting::Connecting(_) => "connecting",
-            Waiting::NoPool => "nopool",
+        let (waiter, mail) = match &self.waiter {
+            Waiting::Idle(rx) => ("idle", !rx.is_empty()),
+            Waiting::Connecting(rx) => ("connecting", !rx.is_empty()),
+            Waiting::NoPool => ("nopool", false),
         };
         let inner = match &self.inner {
             InnerCheckoutConnecting::Waiting => "waiting".to_string(),
@@ -596,9 +596,10 @@ where
             }
         };
         format!(
-            "checkout[token={} waiter={} inner={} holds={}]",
+            "checkout[token={} waiter={} mail={} inner={} holds={}]",
             self.token.verif_index(),
             waiter,
+            mail,
             inner,
             self.connection.is_some()
         )
